@@ -876,7 +876,16 @@ def fam_isrn(case):
                 elif name == "cross_recurrence_rate":
                     e_ = np.sum(CR) / (nx * ny)
                 else:
-                    continue
+                    # the _xy / _yx measures are the generic cross measures
+                    # of the two subnetworks: x = the first N_x nodes, y = the
+                    # following N_y nodes (matters when N_x != N_y)
+                    gx, gy = list(range(nx)), list(range(nx, nx + ny))
+                    generic = name[:-3]
+                    a, b = (gx, gy) if name.endswith("_xy") else (gy, gx)
+                    try:
+                        e_ = getattr(net, generic)(a, b)
+                    except Exception:   # noqa
+                        continue
                 if not np.allclose(got, e_, **F64):
                     acc.v("InterSystemRecurrenceNetwork.%s:value:%s" % (
                         name, tag), "", got, e_)
